@@ -178,7 +178,10 @@ func (w *world) check(t *rapid.T, trace string, sub *stats.Sub) {
 					t.Fatalf("handshake for %q (owner %q) uses a client-CA pool although the owner configures none\ntrace: %s", sni, want, trace)
 				}
 			} else {
-				subj := cfg.ClientCAs.Subjects() //nolint
+				var subj [][]byte
+				if cfg.ClientCAs != nil {
+					subj = cfg.ClientCAs.Subjects() //nolint
+				}
 				if cfg.ClientCAs == nil || len(subj) != 1 || !bytes.Equal(subj[0], wantCA.RawSubject) {
 					t.Fatalf("handshake for %q (owner %q) does not use the owner's client-CA pool\ntrace: %s", sni, want, trace)
 				}
@@ -190,7 +193,10 @@ func (w *world) check(t *rapid.T, trace string, sub *stats.Sub) {
 						t.Fatalf("client-certificate verification options exist for %q (owner %q) although the owner configures no client CA\ntrace: %s", hv, want, trace)
 					}
 				} else {
-					subj := vo.Roots.Subjects() //nolint
+					var subj [][]byte
+					if ok && vo.Roots != nil {
+						subj = vo.Roots.Subjects() //nolint
+					}
 					if !ok || len(subj) != 1 || !bytes.Equal(subj[0], wantCA.RawSubject) {
 						t.Fatalf("client-certificate verification options for %q are not those of owner %q\ntrace: %s", hv, want, trace)
 					}
